@@ -55,7 +55,9 @@ def bisectionSearch (func : α → α) (lower upper tol : α) (max_iter : Int) (
   match adaptInterval func lower upper fuel with
   | none => none
   | some (lo, hi, adaptIters) =>
-    match bisectLoop func tol max_iter fuel lo hi with
+    -- the generated prologue: initial loop state and the values of `tol`, `max_iter` the loop condition closes over
+    let ((lo₀, hi₀, _), tol₀, max_iter₀) := bisInit (fun _ _ => (lo, hi, adaptIters)) lower upper tol max_iter
+    match bisectLoop func tol₀ max_iter₀ fuel lo₀ hi₀ with
     | none => none
     | some (lo', hi', iters) => some (bisExit lo' hi', adaptIters, iters)
 
@@ -80,7 +82,6 @@ def bisectionSolver (lower upper tol : α) (max_iter : Int) (fuel : Nat) (g : α
 /-- `_autoregressive_bisection_search(fn, lower=…, upper=…, tol=…, length=…, max_iter=…)` -/
 def autoregressiveBisection (fn : List α → List α) (lower upper tol : α) (length : Nat)
     (max_iter : Int) (fuel : Nat) : Option (List α) :=
-  autoregressiveScan (bisectionSolver lower upper tol max_iter fuel) fn length 0
-    (List.replicate length ((upper + lower) / 2))
+  autoregressiveScan (bisectionSolver lower upper tol max_iter fuel) fn length 0 (arInit lower upper length).1
 
 end Model
